@@ -86,4 +86,29 @@ def groupsAsDeclared (k : Kind) (w : List String) : Bool :=
   | some e => resolvedAst k w == some e
   | none => false
 
+/-- `Y → A Y c | d`, `A → ε`: no cycle (`Y ⇒⁺ Y` is impossible), but not LR(1): reduce `A → ε` / shift `d` conflict -/
+def gLoop : SGrammar :=
+  { terms := ["c", "d"], nonterms := ["Y", "A"], start := "Y",
+    prods := [⟨"Y", [.nonterm "A", .nonterm "Y", .term "c"]⟩, ⟨"Y", [.term "d"]⟩, ⟨"A", []⟩] }
+
+/-- levels that make the reduction by `A → ε` win over the shift of `d` -/
+def loopLevels : List Level := [⟨.left, [.prod ⟨"A", []⟩]⟩, ⟨.left, [.term "d"]⟩]
+
+/-- the table of construction `k` for `gLoop` is validated, the levels resolve every conflict, and the driver is still
+running after 300 steps on the one-token input `d` -/
+def loops (k : Kind) : Bool :=
+  match build k gLoop 60 with
+  | .ok b =>
+    soundOK gLoop b &&
+    match resolveAll loopLevels (fun _ _ acts => acts) b.table with
+    | .ok (T, .table) => (match parse T.toTbl 300 ["d"] with | .diverge => true | _ => false)
+    | _ => false
+  | _ => false
+
+/-- `S → L = R | R`, `L → * R | id`, `R → L` (LALR(1), not SLR(1)) -/
+def gLR : SGrammar :=
+  { terms := ["=", "*", "id"], nonterms := ["S", "L", "R"], start := "S",
+    prods := [⟨"S", [.nonterm "L", .term "=", .nonterm "R"]⟩, ⟨"S", [.nonterm "R"]⟩,
+              ⟨"L", [.term "*", .nonterm "R"]⟩, ⟨"L", [.term "id"]⟩, ⟨"R", [.nonterm "L"]⟩] }
+
 end AlgoVerif.C11.Demo
